@@ -153,6 +153,13 @@ def run(tier):
                  "  if (n == 1) {\n    var b = c + 1;\n    var c = 1;\n  } else {\n    var d = e + 2;\n    var e = 2;\n  }\n  return n;\n",
                  "  for (var i = 0; i < 2; i++) {\n    if (m == i) {\n      var u = w;\n      var w = 1;\n    }\n    var x = y;\n    var y = 2;\n  }\n  return n;\n"):
         projs.append([{"path": "ubd.circom", "named": True, "text": HEAD + "function f(n, m) {\n" + body + "}\n"}])
+    # the same name defined in two named files of a project with a main component: which of the two definitions is called the
+    # duplicate (ProgramArchive::new merges the files in map order) must not vary either
+    DUPA = "template A() {\n  signal input x;\n  signal output y;\n  y <== x;\n}\ntemplate B() {\n  signal input x;\n  signal output y;\n  y <== x;\n}\n"
+    DUPB = DUPA.replace("y <== x;", "y <== x * x;")
+    for mainfile in (0, 1):
+        projs.append([{"path": "ubd.circom", "named": True, "text": HEAD + DUPA + ("component main = A();\n" if mainfile == 0 else "")},
+                      {"path": "dup2.circom", "named": True, "text": HEAD + DUPB + ("component main = A();\n" if mainfile == 1 else "")}])
     # the small definitions with two candidate errors are run more often: a choice that depends on a hash order shows up rarely
     jobs = [(pi, k) for pi in range(len(projs)) for k in range(24 if projs[pi][0]["path"] == "ubd.circom" else K)]
 
